@@ -313,10 +313,21 @@ def array_abs(obj):
                "norm of a {}, try norm(...) instead.".format(
                MathArray.get_shape_name(obj.ndim)))
         raise FunctionEvalError(msg)
+    return array_norm(obj)
+
+def array_norm(obj):
+    """
+    Frobenius norm of an array; the absolute value of a number.
+
+    np.linalg.norm squares its argument, which underflows to 0 for |x| < 1e-154
+    and overflows for |x| > 1e154; a number has an absolute value without that.
+    """
+    if isinstance(obj, Number):
+        return abs(obj)
     return np.linalg.norm(obj)
 
 ARRAY_ONLY_FUNCTIONS = {
-    'norm': np.linalg.norm,
+    'norm': array_norm,
     'abs': array_abs,
     'trans': lambda x: content_if_0d_array(np.transpose(x)),
     'det': has_one_square_input('det')(np.linalg.det),
